@@ -271,6 +271,14 @@ def gen_inputs(ck: Check, sizes: Dict[str, int]) -> List[Tuple[str, List[int]]]:
     out.extend(catalogue(vocab, rng))
     for j in corpus():
         out.append(("corpus:" + os.path.basename(j["_path"]), "".join(chr(c) for c in j["cps"])))
+    rp = getattr(ck, "replay_file", None)
+    if rp and os.path.exists(rp):          # ./check C0x --replay <file>: a replay written by this stage is run first
+        try:
+            j = json.load(open(rp))
+            if j.get("stage") == "lexer" and isinstance(j.get("cps"), list):
+                out.insert(0, ("replay:" + os.path.basename(rp), "".join(chr(int(c)) for c in j["cps"])))
+        except Exception:  # noqa
+            pass
     seen = set()
     uniq: List[Tuple[str, List[int]]] = []
     for o, t in out:
